@@ -50,7 +50,10 @@ func c13interp(x float64, xs, ys data.ND1Float64, n int) float64 {
 // is symbolic).  which = 0: 2 points, 1: 3 points.
 func c13fixedTables(which int) (n int, lv, vol, ar, mn, mx data.ND1Float64) {
 	var L, V, A, R0, R1 []float64
-	if which == 0 {
+	if which == 2 {
+		// a small pool behind a large spillway: spill capacity per step exceeds the pool volume
+		L, V, A, R0, R1 = []float64{0, 2}, []float64{0, 1000}, []float64{0, 500}, []float64{0, 10}, []float64{0, 20}
+	} else if which == 0 {
 		L, V, A, R0, R1 = []float64{0, 20}, []float64{0, 2000000}, []float64{0, 300000}, []float64{0, 2}, []float64{0, 40}
 	} else {
 		L, V, A, R0, R1 = []float64{0, 10, 20}, []float64{0, 1000000, 3000000}, []float64{0, 200000, 300000}, []float64{0, 0, 5}, []float64{0, 20, 50}
@@ -73,11 +76,19 @@ func c13storage(which int, balanceOnly bool) {
 		vsym.Summarise("Piecewise")
 		vsym.Summarise("NoImplicit")
 	}
+	if !balanceOnly {
+		// the model's own panics (negative volume after an accepted sub-step, storage.go) could not
+		// be proved unreachable within the time limit: they are searched for, not proved absent
+		vsym.Summarise("HuntImplicit")
+	}
 	n, lv, vol, ar, mn, mx := c13fixedTables(which)
 	rain, pet, inflow, demand := vsym.Float64("rain"), vsym.Float64("pet"), vsym.Float64("inflow"), vsym.Float64("demand")
 	vsym.Assume(rain >= 0 && rain <= 500 && pet >= 0 && pet <= 50 && inflow >= 0 && inflow <= 200 && demand >= 0 && demand <= 200)
 	v0 := vsym.Float64("initialVolume")
 	vsym.Assume(v0 >= 0 && v0 <= 4000000)
+	if which == 2 {
+		vsym.Assume(v0 <= 2000)
+	}
 	dt := 86400.0
 	volTS, outTS, rainV, evapV := c13one(0), c13one(0), c13one(0), c13one(0)
 	v1, l1, a1 := storageWaterBalance(c13one(rain), c13one(pet), c13one(inflow), c13one(demand), c13one(0), c13one(0),
@@ -115,6 +126,11 @@ func H_C13_storage_2pt() { c13storage(0, false) }
 // H_C13_storage_3pt: fixed 3-point tables.
 //vsym:prop=C13 tier=thorough ints=int floats=real timeout=120 cut=1 unwind=12 maxruns=400
 func H_C13_storage_3pt() { c13storage(1, false) }
+
+// H_C13_storage_smallpool: fixed 2-point tables of a 1000 m3 pool with a 10 m3/s spillway (the
+// spill clamp "never below the top of the curve" binds here).
+//vsym:prop=C13 tier=quick ints=int floats=real timeout=60 cut=1 unwind=12 maxruns=400
+func H_C13_storage_smallpool() { c13storage(2, false) }
 
 // H_C13_balance: water balance with the reported rainfall/evaporation volumes, tables abstracted
 // to uninterpreted functions (so it holds for ANY table), sub-stepping loops cut after 2 iterations.
